@@ -220,7 +220,7 @@ def run(ctx):
     corp = os.path.join(c.VERIF, "corpus", "C02", "programs.txt")
     if os.path.exists(corp):
         rc, out = c.run_bin(binp, ["run"], timeout=600, input=open(corp, "rb").read())
-        cases += [json.loads(l) for l in out.splitlines() if l.startswith('{"id"')]
+        cases += [x for x in (json.loads(l) for l in out.splitlines() if l.startswith('{"id"')) if "prog" in x]
     ctx.log("harness produced %d cases" % len(cases))
     inp = "".join("C02 %d %s\n" % (FUEL, cs["prog"]) for cs in cases)
     rc, out = c.sh([runner], input=inp.encode(), timeout=3000, env={"OCAMLRUNPARAM": "l=8G"})
